@@ -173,11 +173,11 @@ def oracle(case):
 
 
 def check(rep, tier, seed):
-    n = 12 if tier == "quick" else 120
+    n = 12 if tier == "quick" else 480
     # engines without native TTL run the scanner's expiry; with native TTL the engine's own clock applies
     cases = [gen_case(seed, i, "tikv") for i in range(n)]
     cases += [concurrent_compact_case(v) for v in range(3)]
-    cases += [native_case(seed, i, ["badger", "memkv"][i % 2]) for i in range(4 if tier == "quick" else 24)]
+    cases += [native_case(seed, i, ["badger", "memkv"][i % 2]) for i in range(4 if tier == "quick" else 96)]
     core.run_cases(cases, workers=14)
     for c in cases:
         rep.count_case(c)
